@@ -329,3 +329,20 @@ package idxfile
 //gvc:  opt coarse
 //gvc:  opt frame args
 //gvc:end
+
+// LazyIndex.init (C10: malformed index files are rejected rather than answered
+// from; offset-to-ID answers agree in every implementation). The reverse index
+// a lazy index is opened with must be the one of its pack: init succeeds only
+// after the pack checksum has been compared twice -- with the one stored in
+// the .idx trailer and with the one stored in the .rev trailer, which sits
+// right after one position per object -- and both comparisons said equal.
+// Known finding F79: only the .idx trailer is compared.
+//gvc:func (*LazyIndex).init
+//gvc:  props C10
+//gvc:  theory int
+//gvc:  opt coarse
+//gvc:  opt frame args
+//gvc:  opt callees abstract
+//gvc:  ensures revbound: result == nil ==> calls("Compare") == 2 && lastres("Compare") == 0
+//gvc:  kf F79 revbound: true
+//gvc:end
